@@ -34,7 +34,8 @@ FloatToks == << <<"1",".","5">>, <<"0",".","2","5">>, <<"2",".","0">>, <<"1","0"
 TimeToks == << <<"0","3","/","0","4","/","1","9","7","0">>,
                <<"2","5","/","1","2","/","1","9","7","0">>,
                <<"1","2","/","2","5","/","1","9","7","0">>,
-               <<"1","9","7","0","-","0","1","-","0","2","T","0","3",":","0","4",":","0","5","Z">> >>
+               <<"1","9","7","0","-","0","1","-","0","2","T","0","3",":","0","4",":","0","5","Z">>,
+               <<"0","3","/","0","4">> >>
 OddToks == << <<"x","-","1">>, <<"5","x">>, <<"-","4">>, <<"1",".","5",".","2">> >>
 AllToks == Words \o IntToks \o FloatToks \o OddToks \o (IF Profile = "time" THEN TimeToks ELSE <<>>)
 Files == << <<"l","o","g","A">>, <<"l","o","g","B">> >>
@@ -298,7 +299,7 @@ GenStmt(ctx, scope, depth, indeco, s) ==
        LET d == PoolDim[Ch(s1, Len(PoolDim))]  ix == GenIdx(d.keys, scope, 0, s2)
        IN G([st |-> [n |-> "delafter", m |-> d.name, idx |-> ix.x, h |-> Ch(ix.s, 3)], used |-> FALSE, ns |-> <<>>], Rnd(ix.s))
   ELSE IF c = 12 /\ Coin(s1, 1, 3) THEN G([st |-> [n |-> "stop"], used |-> FALSE, ns |-> <<>>], s2)
-  ELSE IF c = 13 /\ Profile = "time" THEN LET r == GenStrptime(scope, s1) IN G([st |-> r.x, used |-> FALSE, ns |-> <<>>], r.s)
+  ELSE IF c \in {13, 14, 15, 16} /\ Profile = "time" THEN LET r == GenStrptime(scope, s1) IN G([st |-> r.x, used |-> FALSE, ns |-> <<>>], r.s)
   ELSE LET w == GenWrite(scope, IF depth >= 2 THEN 0 ELSE 1, s1) IN G([st |-> w.x, used |-> FALSE, ns |-> <<>>], w.s)
 
 \* a block of 1..3 statements; if a `next` is owed (indeco) exactly one statement consumes it
@@ -436,6 +437,13 @@ Step == /\ i < Len(lines)
         /\ UNCHANGED <<seed, prog, lines>>
 Next == Step
 Spec == Init /\ [][Next]_vars
+
+\* C05 at the model level: what a line does may depend on the metrics but not on the strptime memo left behind by
+\* earlier lines (true for the corrected design; each DEV_Memo* switch yields a counterexample)
+MemoFree == i < Len(lines) =>
+              LET a == ExecLine(prog, mem, lines[i + 1].toks, lines[i + 1].file, i + 1)
+                  b == ExecLine(prog, [mem EXCEPT !.memo = <<>>], lines[i + 1].toks, lines[i + 1].file, i + 1)
+              IN a.m = b.m /\ a.err = b.err
 
 Emit == (i = Len(lines)) =>
           PrintT(<<"CASE", ToJson([seed |-> seed, profile |-> Profile, prog |-> prog, lines |-> lines, exp |-> hist,
